@@ -691,6 +691,11 @@ func (s *DB) getHistoricRootsAndNodes(
 		}
 		parent, err := crdt.Load(ctx, s.crdt.Config, &parentName, *parentRoot)
 		if err != nil {
+			// only what an interrupted vacuum has deleted already may be passed over: after
+			// any other fault the version object would go while its nodes stay for ever
+			if !isNoSuchKey(err) {
+				return nil, nil, fmt.Errorf("load %s: %w", parentName, err)
+			}
 			if logFunc != nil {
 				logFunc(fmt.Sprintf("error loading parent %v: %v\n", parentRoot, err))
 			}
@@ -699,6 +704,9 @@ func (s *DB) getHistoricRootsAndNodes(
 		for childName, childRoot := range children {
 			child, err := crdt.Load(ctx, s.crdt.Config, &childName, *childRoot)
 			if err != nil {
+				if !isNoSuchKey(err) {
+					return nil, nil, fmt.Errorf("load %s: %w", childName, err)
+				}
 				if logFunc != nil {
 					logFunc(fmt.Sprintf("error loading child %v: %v\n", childName, err))
 				}
@@ -714,6 +722,9 @@ func (s *DB) getHistoricRootsAndNodes(
 					return true, nil
 				})
 			if err != nil {
+				if !isNoSuchKey(err) {
+					return nil, nil, fmt.Errorf("diff %s: %w", childName, err)
+				}
 				if logFunc != nil {
 					logFunc(fmt.Sprintf("error diffing %s: %v\n", childName, err))
 				}
@@ -1142,4 +1153,9 @@ func (s *DB) Roots() ([]string, error) {
 	}
 	sort.Strings(roots)
 	return roots, nil
+}
+
+func isNoSuchKey(err error) bool {
+	var ae awserr.Error
+	return errors.As(err, &ae) && ae.Code() == s3.ErrCodeNoSuchKey
 }
